@@ -15,6 +15,8 @@ ATTR = [
  ("fix: FftFilterFloat panicked in debug builds", ["C08"]),
  ("fix: derive(Block) generated a new() that did not compile", ["C19"]),
  ("fix: FftFilterFloat kept a multithreaded graph alive", ["C05"]),
+ ("fix: SymbolSync panicked on the first transitions after", ["C15"]),
+ ("fix: Wpcr asked for len^2/bin elements", ["C15"]),
  ("fix: RationalResampler output depended", ["C08", "C10"]),
  ("fix: AuDecode decoded the rest", ["C14"]),
  ("fix: AuDecode panicked", ["C15"]),
